@@ -337,6 +337,13 @@ def d_linear_with_default_value():
     return B.request([B.coded_const("sid", 0x2E, 0), B.value_param("x", d, 1)]), [("x", ("affine", 2, 10))], None
 
 
+def d_linear_signed_with_limit_zero():
+    # a limit that is exactly 0 on a type that can go below it
+    d = B.dop("lim0", dct=B.std_type(8, DataType.A_INT32), dt=DataType.A_INT32,
+              compu_method=B.linear(-40, 1, DataType.A_INT32, DataType.A_INT32, 0, 100))
+    return B.request([B.coded_const("sid", 0x2E, 0), B.value_param("t", d, 1)]), [("t", ("dependent", 8))], None
+
+
 def d_linear_limited():
     d = B.dop("lim", dct=B.std_type(8), compu_method=B.linear(0, 1, DataType.A_UINT32, DataType.A_UINT32, 0, 100))
     return B.request([B.coded_const("sid", 0x2E, 0), B.value_param("pct", d, 1)]), [("pct", ("dependent", 8))], None
@@ -383,6 +390,7 @@ DESCRIPTIONS = {
     "length-key-bit-position": d_length_key_bit_position,
     "dynamic-length-field-of-strings-last": d_dynamic_length_field_of_strings_last,
     "linear-with-default-value": d_linear_with_default_value,
+    "linear-signed-limit-zero": d_linear_signed_with_limit_zero,
 }
 
 # descriptions in which every bit of the PDU is determined by the decoded values: no reserved bits, no padding behind
@@ -523,7 +531,7 @@ def _fam(tier, seed):
 
 
 @harness(props=["C01", "C02", "C03", "C04", "C05", "C08"], strength="B", family=_fam,
-         bound="42 concrete request/response descriptions built from the real parameter / DOP / diag-coded-type classes "
+         bound="47 concrete request/response descriptions built from the real parameter / DOP / diag-coded-type classes "
          "(constants, defaults, reserved bits, low-high and non-aligned values, linear compu method, request echoes, "
          "MIN-MAX-LENGTH types with the three terminations, PHYS-CONST, SYSTEM, structures with and without BYTE-SIZE, end-of-PDU, static and dynamic-length fields, LEADING-LENGTH types, DTC DOP, multiplexer, table key/struct, PARAM-LENGTH-INFO types with their length key); per description every value is "
          "symbolic",
@@ -734,9 +742,10 @@ def _nrc_service():
 
 
 @harness(props=["C17", "C06"], strength="B",
-         family=lambda t, s: [{"desc": k, "phase": ph} for k in DESCRIPTIONS for ph in ("encode", "decode")] +
+         family=lambda t, s: [{"desc": k, "phase": ph} for k in DESCRIPTIONS for ph in ("encode", "decode")
+                              if not (ph == "decode" and k in DECODE_SKIP)] +
          [{"desc": "nrc-const-service", "phase": "decode"}],
-         bound="the 42 concrete descriptions plus one service with two NRC-CONST negative responses; values and "
+         bound="the 47 concrete descriptions plus one service with two NRC-CONST negative responses; values and "
          "messages symbolic",
          functions=FUNCTIONS + [DiagService.decode_message], covers=["strict-success"],
          assumes=["A-bitstruct", "A-lib"], limits={"max_paths": 40000, "task_timeout": 1500, "sym_for_unroll": 12}, use_contracts=["bcd"],
